@@ -39,6 +39,41 @@ Fixpoint dec_segs (fuel : nat) (n : Z) (l : list Z) : list seg :=
            end
   end.
 
+(* programs of the delimiter-rewriting corpus: a tag may carry its own interior (glue only: for the whitespace
+   rules such a tag is the tag of its kind) *)
+Fixpoint dec_gsegs (fuel : nat) (n : Z) (l : list Z) : list (seg * option str) :=
+  match fuel with
+  | O => []
+  | S f =>
+      if n <=? 0 then []
+      else match l with
+           | 4 :: k :: a :: b :: r =>
+               let '(body, r') := dec_str r in
+               (Tag (if k =? 0 then KVar else if k =? 1 then KBlock else KComment) (dec_mark a) (dec_mark b), Some body) :: dec_gsegs f (n - 1) r'
+           | _ =>
+               match dec_segs 1 1 l with
+               | [s] =>
+                   (* length of the encoding of s *)
+                   let skip := match s with
+                               | Text t => 2 + lenZ t
+                               | Tag _ _ _ => 4
+                               | Raw _ _ c _ _ => 6 + lenZ c
+                               | Line _ t _ => 4 + lenZ t
+                               end in
+                   (s, None) :: dec_gsegs f (n - 1) (skipZ skip l)
+               | _ => []
+               end
+           end
+  end.
+Definition unparse_g (d : delims) (gs : list (seg * option str)) : str :=
+  flat_map (fun g => match g with
+                     | (Tag k l r, Some body) =>
+                         (match k with KVar => var_s d | KBlock => block_s d | KComment => com_s d end) ++ mark_str l ++ body ++ mark_str r ++
+                         (match k with KVar => var_e d | KBlock => block_e d | KComment => com_e d end)
+                     | (s, _) => unparse_seg d s
+                     end) gs.
+Definition has_body (gs : list (seg * option str)) : bool := existsb (fun g => match snd g with Some _ => true | None => false end) gs.
+
 Definition dec_delims (l : list Z) : delims * list Z :=
   let '(d1, l) := dec_str l in let '(d2, l) := dec_str l in let '(d3, l) := dec_str l in let '(d4, l) := dec_str l in
   let '(d5, l) := dec_str l in let '(d6, l) := dec_str l in let '(d7, l) := dec_str l in let '(d8, l) := dec_str l in
@@ -73,8 +108,8 @@ Definition run_with (q : quirks) (inp : list Z) : list Z :=
   | mode :: bits :: r =>
       let '(d, r) := dec_delims r in
       let c := {| dl := d; wsc := dec_ws bits; qk := q |} in
-      let src := if mode =? 1 then fst (dec_str r)
-                 else match r with n :: r' => unparse d (dec_segs (length r') n r') | [] => [] end in
+      let gs := if mode =? 1 then [] else match r with n :: r' => dec_gsegs (length r') n r' | [] => [] end in
+      let src := if mode =? 1 then fst (dec_str r) else unparse_g d gs in
       match tokenize_checked c src with
       | Err code => [1; code]
       | Ok (its, e) =>
@@ -82,7 +117,7 @@ Definition run_with (q : quirks) (inp : list Z) : list Z :=
           | FPanic => [2]
           | FOOS => [7]
           | FGas => [8]
-          | _ => (if mode =? 1 then [3] else enc_render its e) ++ enc_tokens its e
+          | _ => (if mode =? 1 then [3] else if has_body gs then [6] else enc_render its e) ++ enc_tokens its e
           end
       | _ => [9]
       end
@@ -107,7 +142,7 @@ Definition spec (inp : list Z) : list Z :=
       if mode =? 1 then [5]
       else match r with
            | n :: r' =>
-               let segs := dec_segs (length r') n r' in
+               let segs := map fst (dec_gsegs (length r') n r') in
                let ex := expected (dec_settings bits) segs in
                0 :: enc_str (render_items ex) ++ lenZ ex :: enc_eitems ex
            | [] => [9]
@@ -123,8 +158,8 @@ Definition domain (inp : list Z) : list Z :=
       if mode =? 1 then [5]
       else match r with
            | n :: r' =>
-               let segs := dec_segs (length r') n r' in
-               (if wf_case d (bit bits 4) segs then 1 else 0) :: enc_str (unparse d segs)
+               let gs := dec_gsegs (length r') n r' in
+               (if negb (has_body gs) && wf_case d (bit bits 4) (map fst gs) then 1 else 0) :: enc_str (unparse_g d gs)
            | [] => [9]
            end
   | _ => [9]
